@@ -112,6 +112,19 @@ func checkC16(p *Program, r *Result) {
 		r.violated("C16.b", "magic", "bytes", "", fmt.Sprintf("Go %v, Python %v, spec %v", goMagic, py.Magic, specMagic))
 	}
 	checkPyOffsets(p, r)
+	// Go-side conditions the Python readers / Python-written files depend on
+	r.rule("C16.o", "Go indexed reader: chunk slots own their bytes (Python writes uncompressed, overlapping chunks)", 2)
+	r.rule("C16.e", "Go writer: footer summary_start is 0 only when no summary record was written (Python readers locate the summary through it)", 1)
+	checkSlotOwnership(p, r, "C16.o")
+	spec := sinkSpec()
+	R := p.reachSet(spec)
+	sub := newResult("C16", "sub")
+	checkSummaryOffsetsComplete(p, sub, p.scopeFn(spec, R))
+	for _, o := range sub.Obls {
+		o.Key = strings.Replace(o.Key, "C05.e |", "C16.e |", 1)
+		o.Rule = "C16.e"
+		r.Obls = append(r.Obls, o)
+	}
 }
 
 func goMagicBytes(p *Program) []int {
